@@ -133,7 +133,7 @@ def gen_ops(rng, spec, n):
         elif r < 0.93:
             ops.append(("fault", rng.choice(["remove", "corrupt", "plant", "plant-new"]), rng.choice(nodes), rng.choice(paths)))
         else:
-            ops.append(("tools", rng.choice(["both", "rsync", "bbcp", "none", "real"]), rng.choice([{}, {}, {"rsync": "fail"}, {"bbcp": "wrong_md5"}, {"rsync": "truncate"}, {"bbcp": "garbled"}, {"rsync": "mkstemp"}])))
+            ops.append(("tools", rng.choice(["both", "rsync", "bbcp", "none", "real"]), rng.choice([{}, {}, {"rsync": "fail"}, {"bbcp": "wrong_md5"}, {"bbcp": "garbled"}, {"rsync": "mkstemp"}, {"rsync": "write_failed"}])))
     return ops
 
 
@@ -166,8 +166,11 @@ def apply_op(sim, mon, op, ctx=None):
                 daemon._real.get("unlink", os.unlink)(p)
         elif what == "corrupt":
             if p.is_file():
+                # replace the file (new inode): a hard-linked copy on another node is not this copy
                 data = p.read_bytes()
-                daemon._real["builtins.open"](p, "wb").write((data[:-1] + b"~") if data else b"~")
+                tmp = p.with_name(p.name + ".harness-tmp")
+                daemon._real["builtins.open"](tmp, "wb").write((data[:-1] + b"~") if data else b"~")
+                daemon._real.get("replace", os.replace)(tmp, p)
         elif what in ("plant", "plant-new"):
             q = p if what == "plant" else p.with_name(p.name + ".extra")
             if what == "plant-new":
